@@ -384,12 +384,107 @@ def run_module_positions():
     return out
 
 
+CONST_LEAF = {"integer": "2", "boolean": "true", "enumA": "EnumA.ONE", "enumB": "EnumB.TWO"}
+PLACEMENTS = {
+    # how the ill- or well-typed constant expression is reached by the type checker
+    "let": "struct Def:\n  0 [+1]  UInt  z\n  let x = %s\n",
+    "referenced before its definition": "struct User:\n  0 [+1]  UInt  z\n  let y = Def.x\nstruct Def:\n  0 [+1]  UInt  z\n  let x = %s\n",
+    "referenced after its definition": "struct Def:\n  0 [+1]  UInt  z\n  let x = %s\nstruct User:\n  0 [+1]  UInt  z\n  let y = Def.x\n",
+}
+
+
+def py_accepts(op, kinds):
+    """The documented signature table on concrete operand kinds (names)."""
+    n = len(kinds)
+    enum = lambda k: k.startswith("enum")
+    if op in ("+", "-", "*", "<", "<=", ">", ">="):
+        return n == 2 and kinds[0] == kinds[1] == "integer"
+    if op in ("&&", "||"):
+        return n == 2 and kinds[0] == kinds[1] == "boolean"
+    if op in ("==", "!="):
+        return n == 2 and kinds[0] == kinds[1] and (kinds[0] in ("integer", "boolean") or enum(kinds[0]))
+    if op == "?:":
+        return n == 3 and kinds[0] == "boolean" and kinds[1] == kinds[2] and (kinds[1] in ("integer", "boolean") or enum(kinds[1]))
+    if op == "$max":
+        return n >= 1 and all(k == "integer" for k in kinds)
+    if op in ("$upper_bound", "$lower_bound"):
+        return n == 1 and kinds[0] == "integer"
+    raise AssertionError(op)
+
+
+def run_module_operators():
+    """Every operator x operand-type vector over constant operands, written in a virtual field and reached by
+    the type checker in three ways (directly; through a static `Type.field` reference that precedes the
+    definition; through one that follows it), through the whole front end."""
+    import itertools
+    out = {"op": "module operators", "paths": 0, "obligations": 0, "discharged": 0, "candidates": [], "unknown": 0}
+    from compiler.front_end import emboss_front_end
+    real = emboss_front_end._find_in_dirs_and_read([common.REPO])
+    kinds = list(CONST_LEAF)
+    combos = []
+    for _, op, arity in OPERATORS:
+        if op == "$present":
+            continue
+        arities = [arity] if arity else ([1, 2] if op == "$max" else [1])
+        for n in arities:
+            for ks in itertools.product(kinds, repeat=n):
+                for placement in PLACEMENTS:
+                    combos.append((op, ks, placement))
+    holder = {}
+
+    def text_for(op, ks, placement):
+        ops = [CONST_LEAF[k] for k in ks]
+        if op == "?:":
+            ex = "%s ? %s : %s" % tuple(ops)
+        elif op.startswith("$"):
+            ex = "%s(%s)" % (op, ", ".join(ops))
+        else:
+            ex = "%s %s %s" % (ops[0], op, ops[1])
+        return MODULE_HEADER + PLACEMENTS[placement] % ex
+
+    def body(c):
+        k = c.choose(len(combos), "combo")
+        holder["k"] = k
+        op, ks, placement = combos[k]
+        text = text_for(op, ks, placement)
+
+        def rd(name):
+            return (text, None) if name == "probe.emb" else real(name)
+
+        ir, _, errors = glue.parse_emboss_file("probe.emb", rd)
+        return bool(errors), errors
+
+    def on_path(pr):
+        out["paths"] += 1
+        out["obligations"] += 1
+        op, ks, placement = combos[holder["k"]]
+        desc = {"op": op, "operands": [(k, "const") for k in ks], "placement": placement,
+                "module_text": text_for(op, ks, placement)}
+        want_accept = py_accepts(op, list(ks))
+        if pr.kind == "raise":
+            out["candidates"].append(dict(desc, what="front end crashed with %s: %s (%s, %s)" % (
+                type(pr.exc).__name__, str(pr.exc)[:100], placement, "well-typed" if want_accept else "ill-typed")))
+            return
+        rejected, errors = pr.value
+        if rejected == want_accept:
+            msg = errors[0][0].message if errors else ""
+            out["candidates"].append(dict(desc, rejected=rejected, what="%s %s is %s when %s%s" % (
+                op, list(ks), "rejected" if rejected else "accepted", placement, (": " + msg) if msg else "")))
+        else:
+            out["discharged"] += 1
+
+    pysym.explore(body, on_path, max_paths=5000)
+    return out
+
+
 def _job(j):
     try:
         if j == "positions":
             return run_positions()
         if j == "module positions":
             return run_module_positions()
+        if j == "module operators":
+            return run_module_operators()
         return run_operator(j)
     except Exception as e:  # pylint: disable=broad-except
         return {"error": "".join(traceback.format_exception(type(e), e, e.__traceback__))[-1200:], "op": str(j)}
@@ -416,6 +511,8 @@ struct Outer:
 
 
 def emb_for(c):
+    if c.get("module_text"):
+        return c["module_text"]
     body = ("struct Main:\n  0 [+1]  UInt  ui\n  1 [+1]  bits:\n    0 [+1]  Flag  fl\n  2 [+1]  EnumA  ea\n"
             "  3 [+1]  EnumB  eb\n  4 [+1]  Sub  st\n  5 [+1]  Outer.EnumA  ea2\n")
     if "op" in c:
@@ -487,7 +584,7 @@ def main(tier):
     global MAX_ARITY
     rep = common.Report("C13", tier, "proof")
     MAX_ARITY = 3 if tier == "quick" else 4
-    jobs = list(range(len(OPERATORS))) + ["positions", "module positions"]
+    jobs = list(range(len(OPERATORS))) + ["positions", "module positions", "module operators"]
     with multiprocessing.Pool(min(len(jobs), common.ncpu())) as pool:
         results = pool.map(_job, jobs)
     tot = {"paths": 0, "obligations": 0, "discharged": 0}
@@ -520,7 +617,7 @@ def main(tier):
             # (another pass catches it): reported as unit-level only if the unit is the only guard
             rep.inconclusive_item("unit-level difference not visible through the whole front end: %s (%s)" % (c, observed[:60]))
     for name, v in per_op.items():
-        if name not in ("positions", "module positions") and (not v["accepted"] or not v["rejected"]):
+        if name not in ("positions", "module positions", "module operators") and (not v["accepted"] or not v["rejected"]):
             rep.harness_error("operator %s: accepted=%s rejected=%s (vacuous)" % (name, v["accepted"], v["rejected"]))
     rep.sample({"operator": "==", "arity": 2, "operand kinds": "each in {integer, boolean, enumA, enumB, opaque}",
                 "oracle": "accepted iff both integer, both boolean, or both the same enum; result boolean"})
